@@ -25,7 +25,7 @@ RULE = ("strings from a redirect grammar: 24 keys (redirect-like in any case + l
 ASSUMPTIONS = ["bounded progress instead of 'eventually': nesting depth of one top-level call <= len(u)+2 and the non-recursive iteration is stationary within len(u)+2 steps",
                "provenance is lenient: a result must be u itself, or 'https://'+tail for a tail of u following a '/', or t / 'https://'+t / urljoin(u, t) for t the (once percent-decoded) value of a key=value of u whose key is one of the documented redirect-like names",
                "recursion limit lowered to 1200 so runaway recursion is observed as RecursionError, a per-run wall-clock watchdog is inconclusive only"]
-FLOORS = ["step-https", "step-http", "step-relative", "step-amp", "step-youtube", "step-none", "depth>=3", "self-referential", "empty-target", "lookalike-key", "key-in-host", "recursive-checked", "fixed-point-checked", "step-counter-armed", "scheme-less-relative"]
+FLOORS = ["step-https", "step-http", "step-relative", "step-amp", "step-youtube", "step-none", "hops>=3", "self-referential", "empty-target", "lookalike-key", "key-in-host", "recursive-checked", "fixed-point-checked", "step-counter-armed", "scheme-less-relative"]
 PROBE_FLOORS = ["infer_redirection"]
 
 KEYS = ["url", "u", "l", "q", "next", "redirect", "redirect_to", "target", "redir", "link", "orig", "goto", "URL", "Next", "U",
@@ -151,6 +151,15 @@ class StepCounter(object):
 
     def __init__(self, fn):
         self.code = getattr(fn, "__code__", None)
+        # every function defined in the module of infer_redirection is counted (the work may live in helpers of the public function)
+        self.codes = []
+        mod = sys.modules.get(getattr(fn, "__module__", ""))
+        for v in (vars(mod).values() if mod is not None else []):
+            c = getattr(v, "__code__", None)
+            if c is not None and getattr(v, "__module__", None) == fn.__module__ and c not in self.codes:
+                self.codes.append(c)
+        if self.code is not None and self.code not in self.codes:
+            self.codes.append(self.code)
         self.n = 0
         self.bound = 10 ** 9
         self.on = False
@@ -161,14 +170,16 @@ class StepCounter(object):
         mon = sys.monitoring
         mon.use_tool_id(self.TOOL, "verif-steps")
         mon.register_callback(self.TOOL, mon.events.LINE, self._line)
-        mon.set_local_events(self.TOOL, self.code, mon.events.LINE)
+        for c in self.codes:
+            mon.set_local_events(self.TOOL, c, mon.events.LINE)
         self.on = True
 
     def stop(self):
         if not self.on:
             return
         mon = sys.monitoring
-        mon.set_local_events(self.TOOL, self.code, 0)
+        for c in self.codes:
+            mon.set_local_events(self.TOOL, c, 0)
         mon.register_callback(self.TOOL, mon.events.LINE, None)
         mon.free_tool_id(self.TOOL)
         self.on = False
@@ -254,6 +265,8 @@ def check(ctx, fn, pr, u, shape):
     if final is None:
         ctx.viol("C15:iteration-not-stationary:%s" % shape, wit, {"steps": len(chain)})
         return
+    if len(chain) >= 3:
+        ctx.count("hops>=3")  # (counted on the iteration, whether the implementation recurses or loops)
     if len(chain) > 1 or REDIRECT_LIKE.search(u.split("=")[0][-12:] if "=" in u else ""):
         ctx.nontrivial(u)
     r = results[True]
@@ -311,6 +324,9 @@ def run(ctx):
             for u in ("http://example.com/İstanbul/?u=a/path", "http://example.com/İ?url=http%3A%2F%2Fb.org%2Fp", "http://İ.example.com/r?next=/home", "http://a.com/ß/ﬁ?URL=https%3A%2F%2Fb.org%2Fq",
                       "http://a.com/?x=İİİ&url=http%3A%2F%2Fb.org%2FİX", "İİ.cdn.ampproject.org/c/s/b.org/p", "http://a.com/ǰ?u=/ŉ/x"):
                 do(u, "directed-case-mapping-length", "directed")
+            # more nested redirections than the interpreter allows recursive calls (the statement asks for a string, not a RecursionError)
+            for u in ("http://a.com/?" + "next=%2Fp%3F" * 1500 + "x=1", "https://www.youtube.com/watch?" + "next=%2Fwatch%3F" * 1500 + "v=abc", "http://a.com/" + "?u=/" * 1400):
+                do(u, "directed-deeper-than-the-recursion-limit", "directed")
             for u in AMP:
                 do(u, "directed", "directed")
                 if not PROTO_RE.match(u) and "=/" in u:
